@@ -126,6 +126,24 @@ func (v *vdrRun) monitors() {
 			v.hist("bookkeeping-consistency-checked")
 		}
 	}
+	// ---- the layout the one-disk theorem assumes: the directories of different stage forks are not inside one another
+	{
+		var dirs []string
+		for i := range pk.Forks {
+			if pk.Forks[i].Kind == "stage" {
+				dirs = append(dirs, pk.Forks[i].Path)
+			}
+		}
+		for i := range dirs {
+			for j := range dirs {
+				if i != j && (dirs[i] == dirs[j] || strings.HasPrefix(dirs[i], dirs[j]+"/")) {
+					v.violate("C04", "correspondence", "C04:model:layout",
+						fmt.Sprintf("the directory of stage fork %s is (inside) the directory of stage fork %s", dirs[i], dirs[j]), nil)
+				}
+			}
+		}
+		v.hist("layout-checked")
+	}
 	// ---- forks by directory
 	forkByDir := map[string]*core.VerifVdrFork{}
 	for i := range pk.Forks {
